@@ -9,6 +9,10 @@ CHECKS = {
          "generated-input search: seeded tape-decoded (payload, builder configuration) rows with boundary-biased lengths; round-trip oracle through rPGP's reader under generated source/consumer schedules plus an independent de-framer + flate2/bzip2 decoder on unencrypted output; decoy-key negative control",
          "exploration: ~15k (thorough ~275k) builder configurations x boundary lengths (k*{512,1024,8192,partial chunk,AEAD chunk,2*(AEAD+16)} -37..+3) covering every source kind, compression, 0..3 signers over all zoo algorithms, SEIPDv1 x 11 ciphers, SEIPDv2 x 9 AEAD/cipher pairs x 17 chunk sizes, password/public-key/anonymous ESKs, armor; each opened by session key, each password or each recipient (locked/unlocked)",
          "cannot show absence; lengths above 3 MiB (20 MiB in the very-large group) and 1 MiB+ AEAD chunks are only sampled; SEIPDv1 multi-password false-accept is a recorded finding"),
+ "C03": ("DESIGN.md §4 C03",
+         "generated-input search + exhaustive small-scope enumeration of tampering: mutation of rPGP-built SEIPD containers (re-framed by an independent framer), oracle = stream must end in an error, zero bytes released in default SEIPDv1 mode, released bytes a prefix of the true plaintext for SEIPDv2; positive control on the unmodified container",
+         "exploration; exhaustive over every single-bit flip and truncation offset of ~35 (thorough ~65) small messages (quick: every third byte position), sampled over bit flips, truncations, appends, AEAD chunk drop/dup/swap/rotate/truncation-attack/tag surgery, CFB block surgery, all header fields x all 256 values, x consumer patterns x SEIPDv1 read modes x opener (session key, password, recipient)",
+         "assumes primitive forgery probabilities are unreachable; junk appended after an intact fixed-length container is only required not to yield wrong plaintext"),
  "C06": ("DESIGN.md §4 C06",
          "generated-input search: exhaustive strings over {CR,LF,x} (length<=L) + random strings over the canonicalization alphabet, every sign interface crossed with every applicable verify interface (pairwise oracle: own signature must verify), prefixed messages assembled by an independent framer",
          "exploration: all 3-symbol strings up to length 6 (thorough 8) and random Sigma strings incl. buffer-edge placements; sign interfaces {detached binary/text, SignatureConfig::sign, hasher+Write chunks, builder 1..3 signers, cleartext sign/new/new_many} x verify interfaces {Signature::verify, DetachedSignature::verify, re-parsed binary/armored, Message::verify prefixed and one-pass, verify_nested, extracted one-pass signature as detached, cleartext verify/verify_many/after armor}; all zoo algorithms sampled",
